@@ -76,10 +76,10 @@ func Ext(name string) *TyDef { return &TyDef{K: "ext", Name: name} }
 
 func isBasic(k string) bool { _, ok := basicTypes[k]; return ok }
 
-func B(k string) *TyDef           { return &TyDef{K: k} }
-func Ptr(t *TyDef) *TyDef         { return &TyDef{K: "ptr", Elem: t} }
-func Slice(t *TyDef) *TyDef       { return &TyDef{K: "slice", Elem: t} }
-func Map(k, v *TyDef) *TyDef      { return &TyDef{K: "map", Key: k, Elem: v} }
+func B(k string) *TyDef             { return &TyDef{K: k} }
+func Ptr(t *TyDef) *TyDef           { return &TyDef{K: "ptr", Elem: t} }
+func Slice(t *TyDef) *TyDef         { return &TyDef{K: "slice", Elem: t} }
+func Map(k, v *TyDef) *TyDef        { return &TyDef{K: "map", Key: k, Elem: v} }
 func Struct(fs ...*FieldDef) *TyDef { return &TyDef{K: "struct", Fields: fs} }
 func F(name, plenc string, t *TyDef) *FieldDef {
 	return &FieldDef{Name: name, Exported: true, Plenc: plenc, T: t}
